@@ -332,6 +332,13 @@ func (db *Backend) GetObject(bucketName, objectName string, rangeRequest *gofake
 			return fmt.Errorf("gofakes3: could not unmarshal object at %q/%q: %v", bucketName, objectName, err)
 		}
 
+		// bson decodes binary fields as sub-slices of v, and v points into bolt's
+		// memory map, which is only valid until the transaction ends: without a
+		// copy the object's bytes may change or become unmapped (SIGSEGV) while
+		// it is still being read, e.g. by CopyObject after its PutObject.
+		t.Contents = append([]byte(nil), t.Contents...)
+		t.Hash = append([]byte(nil), t.Hash...)
+
 		return nil
 	})
 
